@@ -284,39 +284,43 @@ def noDotInLastPathElem (p : Str) : Bool := !(lastElem p).contains '.'
 def pathChar (c : Char) : Bool :=
   c.isAlphanum || c == '_' || c == '.' || c == '/' || c == '-' || c == '~' || c == '+' || c.toNat ≥ 128
 
-/-- a package path the theorem covers: non-empty, import-path alphabet, not under the patched-package prefix
-    (those are *meant* to share names with the package they patch), last element without a dot -/
-def pathOK (p : Str) : Bool :=
-  !p.isEmpty && p.all pathChar && !patchPrefix.isPrefixOf p && noDotInLastPathElem p
+/-- a valid package path: non-empty, import-path alphabet, not under the patched-package prefix
+    (those are *meant* to share names with the package they patch) -/
+def pathValid (p : Str) : Bool :=
+  !p.isEmpty && p.all pathChar && !patchPrefix.isPrefixOf p
+
+/-- a package path the partial theorem covers: valid, and the last element has no dot -/
+def pathOK (p : Str) : Bool := pathValid p && noDotInLastPathElem p
 
 mutual
-/-- type arguments the partial theorem covers -/
-def Ty.ok : Ty → Bool
+/-- type arguments the theorems cover (`pp` = the condition on package paths) -/
+def Ty.ok (pp : Str → Bool) : Ty → Bool
   | .basic n => identOK n
-  | .named p n ta _ => pathOK p && identOK n && ta.ok
-  | .ptr e => e.ok
-  | .slice e => e.ok
-  | .array _ e => e.ok
-  | .map k v => k.ok && v.ok
+  | .named p n ta _ => pp p && identOK n && ta.ok pp
+  | .ptr e => e.ok pp
+  | .slice e => e.ok pp
+  | .array _ e => e.ok pp
+  | .map k v => k.ok pp && v.ok pp
   | .chan _ _ => false
   | .other _ => false
-def Tys.ok : Tys → Bool
+def Tys.ok (pp : Str → Bool) : Tys → Bool
   | .nil => true
-  | .cons t ts => t.ok && ts.ok
+  | .cons t ts => t.ok pp && ts.ok pp
 end
 
 namespace Entity
 
-/-- entities covered by `linkName_injective_partial`: functions, methods, function literals (any nesting),
-    instances of generic functions, globals — with valid identifiers, covered paths and covered type arguments -/
-def ok : Entity → Bool
-  | func p n => pathOK p && identOK n
-  | method p r ta _ n => pathOK p && identOK r && ta.ok && identOK n
+/-- entities covered by the injectivity theorems: functions, methods, function literals (any nesting),
+    instances of generic functions, globals — with valid identifiers, package paths satisfying `pp` and
+    covered type arguments -/
+def ok (pp : Str → Bool) : Entity → Bool
+  | func p n => pp p && identOK n
+  | method p r ta _ n => pp p && identOK r && ta.ok pp && identOK n
   | closure q _ => (match q with
       | func .. | method .. | closure .. | «instance» .. => true
-      | _ => false) && q.ok
-  | «instance» b ta => (match b with | func .. => true | _ => false) && b.ok && !ta.isEmpty && ta.ok
-  | global p n => pathOK p && identOK n
+      | _ => false) && q.ok pp
+  | «instance» b ta => (match b with | func .. => true | _ => false) && b.ok pp && !ta.isEmpty && ta.ok pp
+  | global p n => pp p && identOK n
   | _ => false
 
 /-- Go's own scoping rule excludes this pair: a function and a variable of one package with the same name -/
